@@ -263,6 +263,7 @@ impl Model for C14Model {
     }
 
     fn apply(&mut self, w: &mut World, op: &Op) -> OpOutcome {
+        crate::jitter::reset();
         if *op == MAINTAIN {
             // anything the repository still has to catch up with is not part
             // of the maintenance run: drain it first, then observe
@@ -466,6 +467,60 @@ impl Model for C14Model {
     }
 }
 
+/// A `ca` in the middle of a key roll whose non-current key set (staging, or
+/// old after activation) has a next-update time hours before the current
+/// key's. Tries both jitter patterns and keeps the one that produces it.
+fn mid_roll_build(activated: bool) -> Result<World, String> {
+    // which pattern does it follows from the order in which krill creates
+    // and re-issues the sets; the outcome is checked below
+    let modes: Vec<u32> = std::env::var("VERIF_C14_JITTER_MODE")
+        .ok()
+        .map(|m| m.split(',').filter_map(|x| x.parse().ok()).collect())
+        .unwrap_or_else(|| vec![1, if activated { 1 } else { 2 }]);
+    crate::jitter::install(0);
+    let mut w = c01::build_w3(cfg_jitter(24, 8, 52, 4, 4))?;
+    // a forced re-issue of everything: the current key's set gets its jitter
+    crate::jitter::install(modes[0]);
+    let o = w.apply(&Op::Republish { force: true });
+    if !o.ok {
+        return Err(format!("republish: {:?}", o.err));
+    }
+    w.settle()?;
+    let mode = modes[1];
+    crate::jitter::install(mode);
+    let o = w.apply(&Op::RollInit { ca: "ca".into() });
+    if !o.ok {
+        return Err(format!("roll init: {:?}", o.err));
+    }
+    w.settle()?;
+    if activated {
+        let mut out = OpOutcome { ok: true, err: None, tasks: vec![], fatal: None };
+        crate::jitter::reset();
+        let o = w.apply(&Op::RollActivate { ca: "ca".into() });
+        if !o.ok {
+            return Err(format!("roll activate: {:?}", o.err));
+        }
+        pump_repo_only(&mut w, &mut out);
+        if let Some(f) = out.fatal {
+            return Err(f);
+        }
+    }
+    let (_, r) = observe(&w)?;
+    let points: Vec<_> = r.cas.iter().filter(|p| p.repo_dir.ends_with("/ca/0/")).collect();
+    let current = points.iter().find(|p| !p.products.is_empty()).map(|p| p.mft_next_update);
+    let other = points.iter().find(|p| p.products.is_empty()).map(|p| p.mft_next_update);
+    match (points.len(), current, other) {
+        (2, Some(c), Some(o)) if o + 3 * 3600 <= c => Ok(w),
+        x => Err(format!("jitter pattern {mode} does not make the non-current key set come due first: {x:?}")),
+    }
+}
+
+fn cfg_jitter(next_h: u32, margin_h: u32, valid_w: u32, reissue_w: u32, jitter_h: u32) -> WorldCfg {
+    let mut c = cfg(next_h, margin_h, valid_w, reissue_w);
+    c.timing.timing_publish_next_jitter_hours = jitter_h;
+    c
+}
+
 fn cfg(next_h: u32, margin_h: u32, valid_w: u32, reissue_w: u32) -> WorldCfg {
     let mut t = default_timing();
     t.timing_publish_next_hours = next_h;
@@ -484,7 +539,7 @@ pub fn run(tier: &Tier, args: &[String]) -> i32 {
     out.assumptions = vec![
         "time is the virtual clock; `Tick` operations place the clock one second before / two seconds inside each margin, plus one hour".into(),
         "a maintenance run = republish_all(false) + scheduling of repo syncs (as the RepublishIfNeeded task does) + renew_objects_all, then the triggered tasks".into(),
-        "child CA certificates are refreshed by the child's own requests (covered by C02), not by these tasks; jitter is 0".into(),
+        "child CA certificates are refreshed by the child's own requests (covered by C02), not by these tasks; jitter is 0 except in the jitter4 configurations, where the harness decides it (hook H8): alternately none and the maximum, counted from the start of each operation".into(),
     ];
     let depth = crate::report::arg_value(args, "--depth")
         .and_then(|d| d.parse().ok())
@@ -528,6 +583,32 @@ pub fn run(tier: &Tier, args: &[String]) -> i32 {
                 w.settle()?;
                 Ok(w)
             }),
+            model: mk(24, 8, 52, 4),
+        },
+        Config {
+            // krill's default configuration adds up to four hours of random
+            // jitter to every next-update time; here the harness decides
+            // the jitter (hook H8): key sets of one class get different
+            // next-update times although they are re-issued together
+            name: "jitter4-alternating".into(),
+            build: Box::new(|| {
+                crate::jitter::install(1);
+                c01::build_w3(cfg_jitter(24, 8, 52, 4, 4))
+            }),
+            model: mk(24, 8, 52, 4),
+        },
+        Config {
+            // a roll is in progress and the new (staging) key's manifest and
+            // CRL come due hours before the current key's
+            name: "jitter4-staging-key-due-first".into(),
+            build: Box::new(|| mid_roll_build(false)),
+            model: mk(24, 8, 52, 4),
+        },
+        Config {
+            // the same for the old key after activation (the parent has not
+            // yet confirmed the revocation: only the repository is pumped)
+            name: "jitter4-old-key-due-first".into(),
+            build: Box::new(|| mid_roll_build(true)),
             model: mk(24, 8, 52, 4),
         },
     ];
